@@ -111,6 +111,20 @@ def check_result(g, r, enforce_expected):
     return None, mapping
 
 
+def _variant(n, variant):
+    order = labels = None
+    if variant == "scrambled-insertion":
+        order = list(range(n - 1, -1, -1))
+    elif variant == "one-based-labels":
+        labels = [i + 1 for i in range(n)]
+    elif variant == "sparse-labels":
+        labels = [10 * i + 3 for i in range(n)]
+    elif variant == "sparse-scrambled":
+        labels = [10 * i + 3 for i in range(n)]
+        order = list(range(n - 1, -1, -1))
+    return order, labels
+
+
 def explore_graph(job):
     from tucan.graph_utils import permute_molecule
 
@@ -118,8 +132,7 @@ def explore_graph(job):
     edges = G.edges_of(n, mask)
     order = None
     labels = None
-    if variant == "scrambled-insertion":
-        order = list(range(n - 1, -1, -1))
+    order, labels = _variant(n, variant)
     g = build(n, edges, order, labels)
     before = snapshot(g)
     m = len(edges)
@@ -224,8 +237,9 @@ def run(tier):
     for n in range(1, nmax + 1):
         for mask in range(1 << (n * (n - 1) // 2)):
             jobs.append((n, mask, "label-order", 2))
-            if n == 3 or (n == 4 and mask % 5 == 0):
-                jobs.append((n, mask, "scrambled-insertion", 2))
+            if n in (2, 3) or (n == 4 and mask % 5 == 0):
+                for v in ("scrambled-insertion", "one-based-labels", "sparse-labels", "sparse-scrambled"):
+                    jobs.append((n, mask, v, 2))
     for name, (n, edges) in ZOO.items():
         if n <= (6 if tier == "quick" else 7):
             jobs.append((n, G.mask_of(n, edges), "label-order", 1))
@@ -276,8 +290,8 @@ def replay(prop, rec):
         if snapshot(r1) != snapshot(r2):
             err = err or "two calls with the same seed differ"
         return bool(err), err or "ok"
-    order = list(range(n - 1, -1, -1)) if rec["variant"] == "scrambled-insertion" else None
-    g = build(n, edges, order)
+    order, labels = _variant(n, rec["variant"])
+    g = build(n, edges, order, labels)
     before = snapshot(g)
     ch = Chooser(rec["answers"], len(rec["answers"]) + 10 * n)
     with OwnedRNG(ch):
